@@ -206,6 +206,7 @@ namespace detail
     template<typename V>
     struct Builder
     {
+        struct Scope { Scope() { simrt::functor_enter(); } ~Scope() { simrt::functor_leave(); } } scope;
         V v;
         uint64_t h, hs;
         int n = 0;
